@@ -72,7 +72,4 @@ def run(tier):
 
 
 def replay(path):
-    d = json.load(open(path))
-    for m in d["violations"]:
-        core.log(json.dumps(m)[:600])
-    return 1 if d["violations"] else 0
+    return core.replay_generic(path)
